@@ -210,7 +210,7 @@ func addCond(p *Path, cs CondStep) {
 var curEnum *pathEnum
 
 func (pe *pathEnum) xlat(ver map[types.Object]int, defs map[types.Object]string) *condXlat {
-	return &condXlat{info: pe.info, fd: pe.fd, ver: ver, uniq: &pe.uniq, pure: pe.pure, defs: defs, callOrd: pe.callOrd}
+	return &condXlat{info: pe.info, fd: pe.fd, ver: ver, uniq: &pe.uniq, pure: pe.pure, defs: defs, callOrd: pe.callOrd, pathMode: true}
 }
 
 func (pe *pathEnum) xlatP(p *Path) *condXlat { return pe.xlat(p.ver, p.defs) }
@@ -297,6 +297,18 @@ func (pe *pathEnum) assigned(s ast.Stmt) []types.Object {
 		}
 	case *ast.IncDecStmt:
 		add(x.X)
+	case *ast.DeclStmt:
+		if gd, ok := x.Decl.(*ast.GenDecl); ok && gd.Tok == token.VAR {
+			for _, sp := range gd.Specs {
+				if vs, ok := sp.(*ast.ValueSpec); ok {
+					for _, n := range vs.Names {
+						if o := pe.info.Defs[n]; o != nil {
+							out = append(out, o)
+						}
+					}
+				}
+			}
+		}
 	}
 	return out
 }
@@ -333,7 +345,63 @@ func (pe *pathEnum) applyAssign(q *Path, s ast.Stmt, assigned []types.Object) {
 		}
 		nv[o] = old[o] + 1
 	}
+	if ds, ok := s.(*ast.DeclStmt); ok {
+		// var x T (no initialiser): x holds the zero value
+		if gd, ok := ds.Decl.(*ast.GenDecl); ok {
+			for _, sp := range gd.Specs {
+				vs, ok := sp.(*ast.ValueSpec)
+				if !ok || len(vs.Values) != 0 {
+					continue
+				}
+				for _, n := range vs.Names {
+					o := pe.info.Defs[n]
+					if o == nil {
+						continue
+					}
+					name := o.Name()
+					if v := nv[o]; v > 0 {
+						name = fmt.Sprintf("%s@%d", name, v)
+					}
+					switch t := o.Type().Underlying().(type) {
+					case *types.Basic:
+						if t.Info()&types.IsBoolean != 0 {
+							synth = append(synth, &FLit{"b:" + name, 2, 1})
+						}
+						if t.Info()&types.IsString != 0 {
+							synth = append(synth, &FLit{eqAtom("const:\"\"", name), 2, 2})
+						}
+						if t.Info()&types.IsInteger != 0 {
+							k, _ := orderAtom("const:0", name)
+							synth = append(synth, &FLit{k, 3, 2})
+						}
+					case *types.Pointer, *types.Interface, *types.Map, *types.Slice, *types.Chan, *types.Signature:
+						synth = append(synth, &FLit{eqAtom("nil", name), 2, 2})
+					}
+				}
+			}
+		}
+	}
 	if isAssign {
+		// x = y (plain identifier or pure term): x denotes the same value as y from here on
+		if len(as.Lhs) == len(as.Rhs) {
+			for i, l := range as.Lhs {
+				id, ok := ast.Unparen(l).(*ast.Ident)
+				if !ok {
+					continue
+				}
+				o := pe.info.ObjectOf(id)
+				if o == nil {
+					continue
+				}
+				if rid, ok := ast.Unparen(as.Rhs[i]).(*ast.Ident); ok {
+					if _, isVar := pe.info.ObjectOf(rid).(*types.Var); isVar {
+						if t, ok := pe.xlat(old, oldDefs).term(rid); ok {
+							nd[o] = t
+						}
+					}
+				}
+			}
+		}
 		// results of a call
 		if len(as.Rhs) == 1 {
 			if call, ok := ast.Unparen(as.Rhs[0]).(*ast.CallExpr); ok {
